@@ -187,6 +187,14 @@ def run(F, rep):
                     rep.check(bool(det), 'C09.P2', key, f.where(n),
                               '%s inserts the caller\'s `%s` into %s without detaching it from a previous parent: an entity that already belongs to another container ends up listed by both' % (f.short, xt, r['n']),
                               'detached from its previous parent first')
+                    # order: the detaching call clears the parent link of what it removes, so it must come BEFORE the new parent is set
+                    from faillog import _can_reach as _cr
+                    cfg_ = f.cfg()
+                    late = [(c_, d_) for c_ in sp for d_ in det if cfg_ is not None and _cr(cfg_, c_, d_)]
+                    if det and sp:
+                        rep.check(not late, 'C09.P2', key + '|detach-before-attach', f.where(late[0][1]) if late else f.where(n),
+                                  '%s sets the new parent of `%s` (line %s) and only then removes it from its previous parent (line %s): that removal clears the parent link again, so the entity is listed by the new container but reports no parent'
+                                  % (f.short, xt, late[0][0].get('l') if late else '', late[0][1].get('l') if late else ''), 'detached before the new parent is set')
             elif fn == 'erase':
                 a = strip(n['c'][1]) if len(n['c']) > 1 else None
                 elem_desc = None
